@@ -37,17 +37,19 @@ Definition lookup {V} (k : bytes) (m : list (bytes * V)) : option V :=
   match find (fun '(k', _) => bytes_eqb k k') m with Some (_, v) => Some v | None => None end.
 
 (* ---------- literals ---------- *)
-(* STRING token text -> value: delimiters dropped, the escapes backslash-quote and
-   backslash-backslash interpreted; any other escape is outside the fragment (expr-lang knows more
-   escapes than are modelled) *)
+(* STRING token text -> value: delimiters dropped, the escapes backslash-quote,
+   backslash-backslash, backslash-n, -t, -r interpreted; any other escape is outside the fragment
+   (expr-lang knows more escapes than are modelled, and rejects unknown ones) *)
 Fixpoint unescape (s : bytes) : option bytes :=
   match s with
   | [] => Some []
   | x5c :: x22 :: r => option_map (cons x22) (unescape r)
   | x5c :: x5c :: r => option_map (cons x5c) (unescape r)
+  | x5c :: x6e :: r => option_map (cons x0a) (unescape r)     (* \n *)
+  | x5c :: x74 :: r => option_map (cons x09) (unescape r)     (* \t *)
+  | x5c :: x72 :: r => option_map (cons x0d) (unescape r)     (* \r *)
   | x5c :: _ => None
-  | x0a :: _ => None          (* expr-lang: a raw line feed ends the literal ("literal not terminated") *)
-  | c :: r => option_map (cons c) (unescape r)
+  | c :: r => option_map (cons c) (unescape r)                (* a raw line feed is emitted as \n, same value *)
   end.
 
 Definition string_literal (tok : bytes) : option bytes :=
@@ -338,6 +340,92 @@ Fixpoint names_bound (env : tenv) (e : xexpr) : bool :=
   | XBin _ a b => names_bound env a && names_bound env b
   end.
 
+(* ---------- the part of expr-lang's static checker the fragment needs ---------- *)
+(* Types known at compile time: literals, aliases (maps), results of operators.  Everything reached
+   through the env map is dynamically typed (TAny).  An operator applied to operands of statically
+   known, unsuitable types is a compile error: every tuple is rejected, even where evaluation
+   would have short-circuited past it. *)
+Inductive sty := TS | TI | TB | TL | TMap | TAny.
+Inductive sres := SOk (t : sty) | SErr | SOOF.
+
+Definition is_any (t : sty) : bool := match t with TAny => true | _ => false end.
+Definition sty_eqb (a b : sty) : bool :=
+  match a, b with
+  | TS, TS | TI, TI | TB, TB | TL, TL | TMap, TMap | TAny, TAny => true
+  | _, _ => false
+  end.
+Definition boolish (t : sty) : bool := match t with TB | TAny => true | _ => false end.
+
+Definition sbin (o : binop) (a b : sty) : sres :=
+  match a, b with
+  | TMap, _ | _, TMap => SOOF
+  | _, _ =>
+    match o with
+    | BAnd | BOr => if boolish a && boolish b then SOk TB else SErr
+    | BEq | BNe => if is_any a || is_any b || sty_eqb a b then SOk TB else SErr
+    | BLt | BGt | BLe | BGe =>
+        if is_any a || is_any b then SOk TB
+        else match a, b with TI, TI | TS, TS => SOk TB | _, _ => SErr end
+    | BIn => match b with TL | TAny => SOk TB | _ => SErr end
+    | BAdd => match a, b with
+              | TI, TI => SOk TI | TS, TS => SOk TS
+              | TAny, (TI | TS | TAny) | (TI | TS), TAny => SOk TAny
+              | _, _ => SErr end
+    | BSub | BMul => match a, b with
+                     | TI, TI => SOk TI
+                     | TAny, (TI | TAny) | TI, TAny => SOk TAny
+                     | _, _ => SErr end
+    | BDiv => SOOF
+    end
+  end.
+
+(* Where the two grammars group differently, the text is read by expr-lang as another tree than
+   Query.g4 gives it: expr-lang has == != < > <= >= in on ONE precedence level (Query.g4 puts the
+   relational operators above equality), and reads a<b<c as a chain.  Such unparenthesised mixes
+   are outside the fragment (the documented conditions are boolean combinations of single
+   comparisons); DESIGN.md D36. *)
+Definition relational (o : binop) : bool :=
+  match o with BLt | BGt | BLe | BGe | BIn => true | _ => false end.
+Definition regroups (o : binop) (a b : xexpr) : bool :=
+  match o with
+  | BEq | BNe => match b with XBin o' _ _ => relational o' | _ => false end
+  | BLt | BGt | BLe | BGe | BIn => match a with XBin o' _ _ => relational o' | _ => false end
+  | _ => false
+  end.
+
+Fixpoint static (env : tenv) (e : xexpr) : sres :=
+  match e with
+  | XVal (VStr t) => match string_literal t with Some _ => SOk TS | None => SOOF end
+  | XVal (VNum t) => match int_literal t with Some _ => SOk TI | None => SOOF end
+  | XList vs => match literals vs with Some _ => SOk TL | None => SOOF end
+  | XVar x => match lookup x env with Some _ => SOk TMap | None => SErr end
+  | XParen a => static env a
+  | XMember a _ =>
+      match static env a with
+      | SOk (TMap | TAny) => SOk TAny
+      | SOk _ => SOOF
+      | r => r
+      end
+  | XCall a args =>
+      match args with
+      | [] => match static env a with
+              | SOk TAny => SOk TAny
+              | SOk _ => SOOF
+              | r => r
+              end
+      | _ :: _ => match static env a with SErr => SErr | _ => SOOF end
+      end
+  | XUn UNot a => match static env a with SOk t => if boolish t then SOk TB else match t with TMap => SOOF | _ => SErr end | r => r end
+  | XUn UNeg a => match static env a with SOk TI => SOk TI | SOk TAny => SOk TAny | SOk TMap => SOOF | SOk _ => SErr | r => r end
+  | XBin o a b =>
+      if regroups o a b then SOOF else
+      match static env a, static env b with
+      | SErr, _ | _, SErr => SErr
+      | SOOF, _ | _, SOOF => SOOF
+      | SOk ta, SOk tb => sbin o ta tb
+      end
+  end.
+
 (* FilterEntities on one tuple: true exactly when the condition evaluates to the boolean true *)
 Inductive verdict := Accept | Reject | Unknown.   (* Unknown: outside the fragment *)
 
@@ -345,11 +433,14 @@ Definition filter_verdict (env : tenv) (cond : option xexpr) : verdict :=
   match cond with
   | None => Accept
   | Some c =>
-      if names_bound env c then
-        match eval env c with
-        | Val (VB true) => Accept
-        | OutOfFragment => Unknown
-        | _ => Reject
-        end
-      else Reject
+      match static env c with
+      | SErr => Reject                 (* compile error: printed, tuple rejected *)
+      | SOOF => Unknown
+      | SOk _ =>
+          match eval env c with
+          | Val (VB true) => Accept
+          | OutOfFragment => Unknown
+          | _ => Reject
+          end
+      end
   end.
